@@ -39,9 +39,7 @@ func (h *NFSProcedureHandler) handleRemove(body io.Reader, reply *RPCReply, auth
 		return nfsErrorWithWcc(reply, NFSERR_STALE), nil
 	}
 
-	node.mu.RLock()
-	isDir := node.attrs.Mode&os.ModeDir != 0
-	node.mu.RUnlock()
+	isDir := h.currentMode(node)&os.ModeDir != 0
 
 	if !isDir {
 		return nfsErrorWithWcc(reply, NFSERR_NOTDIR), nil
@@ -120,9 +118,7 @@ func (h *NFSProcedureHandler) handleRmdir(body io.Reader, reply *RPCReply, authC
 		return nfsErrorWithWcc(reply, NFSERR_STALE), nil
 	}
 
-	node.mu.RLock()
-	isDir := node.attrs.Mode&os.ModeDir != 0
-	node.mu.RUnlock()
+	isDir := h.currentMode(node)&os.ModeDir != 0
 
 	if !isDir {
 		return nfsErrorWithWcc(reply, NFSERR_NOTDIR), nil
